@@ -24,6 +24,8 @@ package main
 //                append(xs, x), new(T), make(..) (empty), conversions, v.(T), calls listed in callTable,
 //                calls of other functions / methods of the package (Section variables: "external calls"),
 //                fmt.Errorf / errors.New (only as the error of a return: class EOther)
+// A partial operation (index, slice, assertion) on the right of && / || in a plain expression - not an if condition, which
+// is translated with Go's short-circuit order - is evaluated eagerly: the translation can only Crash MORE often than Go.
 // Standard-library calls are mapped to Gallina functions of Base/Str.v and Gen/PureSupport.v (callTable below);
 // that mapping and this translator are part of the trusted base.
 
@@ -68,6 +70,8 @@ func (t *fnTr) kindOfType(ty types.Type) string {
 			return "bool"
 		case u.Info()&types.IsString != 0:
 			return "str"
+		case u.Kind() == types.Byte:
+			return "byte"
 		case u.Info()&types.IsInteger != 0:
 			return "int"
 		case u.Info()&types.IsFloat != 0:
@@ -81,6 +85,9 @@ func (t *fnTr) kindOfType(ty types.Type) string {
 		}
 		if ty.String() == "error" {
 			return "err"
+		}
+		if ty.String() == "io.Reader" {
+			return "reader" // a schedule of Read results, consumed as the function reads (state)
 		}
 	case *types.Map:
 		if kb, ok := u.Key().Underlying().(*types.Basic); ok && kb.Info()&types.IsString != 0 {
@@ -114,8 +121,8 @@ func (t *fnTr) kindOfType(ty types.Type) string {
 		if strings.HasPrefix(k, "rec:") {
 			return k
 		}
-		if k == "vlist" || k == "int" || k == "strs" || strings.HasPrefix(k, "recs:") {
-			return "ptr:" + k // an out-parameter: threaded as state
+		if k == "vlist" || k == "int" || k == "strs" || k == "str" || strings.HasPrefix(k, "recs:") {
+			return "ptr:" + k // an out-parameter: threaded as state (as a result type: the pointee)
 		}
 		return "tok"
 	case *types.Signature:
@@ -130,6 +137,10 @@ func fnCoqType(k string) string {
 		return "bool"
 	case k == "errv":
 		return "(option err)"
+	case k == "reader":
+		return "(list rev)"
+	case k == "byte":
+		return "ascii"
 	case k == "str":
 		return "str"
 	case k == "int":
@@ -172,6 +183,8 @@ func fnZero(k string) string {
 		return "VNil"
 	case k == "tok", k == "errv":
 		return "None"
+	case k == "byte":
+		return "zero_byte"
 	}
 	return "([] : " + fnCoqType(k) + ")"
 }
@@ -208,6 +221,7 @@ type fnTr struct {
 	resKind []string // kinds of the results
 	inLoop  bool
 	loopEnd func() string
+	breakEnd func() string // what `break` jumps to (nil: not allowed here)
 	escaped map[types.Object]bool
 	state   []*lvar          // out-parameters (pointer / mutated map parameters) of a void function, in parameter order
 	stateAt map[int]*lvar    // parameter position -> state variable
@@ -363,6 +377,10 @@ func (t *fnTr) expr(e ast.Expr) string {
 			if s, ok := constTerm(tv.Value, k); ok {
 				return s
 			}
+		case "byte":
+			if v, ok := constant.Int64Val(tv.Value); ok {
+				return fmt.Sprintf("(ascii_of_nat %d)", v)
+			}
 		}
 	}
 	switch x := e.(type) {
@@ -433,11 +451,9 @@ func (t *fnTr) expr(e ast.Expr) string {
 		switch x.Op {
 		case token.LAND, token.LOR:
 			a := t.expr(x.X)
-			n := len(t.guards)
+			// outside an if condition a partial operation on the right of && / || is evaluated EAGERLY: the translation
+			// may Crash where Go would not have evaluated it, never the other way round (conservative; see the header)
 			b := t.expr(x.Y)
-			if len(t.guards) != n {
-				t.unsupported(e, "partial operation on the right of a short-circuit operator (outside an if condition)")
-			}
 			if x.Op == token.LAND {
 				return "(" + a + " && " + b + ")"
 			}
@@ -448,13 +464,24 @@ func (t *fnTr) expr(e ast.Expr) string {
 			case "err":
 				id, ok := x.X.(*ast.Ident)
 				lv := t.locals[t.p.info.Uses[id]]
+				if ok && lv != nil && lv.kind == "errv" {
+					if se, isSel := x.Y.(*ast.SelectorExpr); isSel && types.ExprString(se) == "io.EOF" {
+						r = "(match " + lv.name + " with Some EEOF => true | _ => false end)"
+						if x.Op == token.NEQ {
+							return "(negb " + r + ")"
+						}
+						return r
+					}
+				}
 				if !ok || lv == nil || (lv.kind != "errnil" && lv.kind != "errv") || !t.p.info.Types[x.Y].IsNil() {
-					t.unsupported(e, "comparison of an error value other than `err == nil` / `err != nil`")
+					t.unsupported(e, "comparison of an error value other than `err == nil` / `err != nil` / `err == io.EOF`")
 				}
 				r = lv.name
 				if lv.kind == "errv" {
 					r = "(match " + lv.name + " with None => true | Some _ => false end)"
 				}
+			case "byte":
+				r = "(Ascii.eqb " + t.expr(x.X) + " " + t.expr(x.Y) + ")"
 			case "bool":
 				r = "(Bool.eqb " + t.expr(x.X) + " " + t.expr(x.Y) + ")"
 			case "str":
@@ -525,7 +552,7 @@ func (t *fnTr) expr(e ast.Expr) string {
 			return n
 		}
 		i, ok := t.constInt(x.Index)
-		if !ok || (k != "bools" && k != "strs" && k != "vlist" && !strings.HasPrefix(k, "recs:")) {
+		if !ok || (k != "bools" && k != "strs" && k != "vlist" && k != "str" && !strings.HasPrefix(k, "recs:")) {
 			t.unsupported(e, "index expression")
 		}
 		base := t.expr(x.X)
@@ -667,6 +694,9 @@ func (t *fnTr) call(x *ast.CallExpr) string {
 				}
 				k := strings.TrimPrefix(t.kindOfExpr(x.Args[0]), "ptr:")
 				var el string
+				if k == "str" && t.kindOfExpr(x.Args[1]) != "byte" {
+					t.unsupported(x, "append to a byte string of something other than a byte")
+				}
 				if k == "vlist" {
 					el = t.boxVal(x.Args[1])
 				} else {
@@ -675,7 +705,11 @@ func (t *fnTr) call(x *ast.CallExpr) string {
 				return "(app " + t.expr(x.Args[0]) + " [" + el + "])"
 			case "make":
 				if len(x.Args) >= 2 {
-					if n, ok := t.constInt(x.Args[1]); !ok || n != 0 {
+					n, ok := t.constInt(x.Args[1])
+					if ok && n == 1 && t.kindOfExpr(x) == "str" {
+						return "[zero_byte]" // a one-byte buffer
+					}
+					if !ok || n != 0 {
 						t.unsupported(x, "make with a non-zero length")
 					}
 				}
@@ -852,7 +886,7 @@ func fallsThrough(list []ast.Stmt) bool {
 	case *ast.ReturnStmt:
 		return false
 	case *ast.BranchStmt:
-		return x.Tok != token.CONTINUE
+		return x.Tok != token.CONTINUE && x.Tok != token.BREAK
 	case *ast.BlockStmt:
 		return fallsThrough(x.List)
 	case *ast.IfStmt:
@@ -875,7 +909,7 @@ func hasContinue(list []ast.Stmt) bool {
 		ast.Inspect(s, func(n ast.Node) bool {
 			switch x := n.(type) {
 			case *ast.BranchStmt:
-				if x.Tok == token.CONTINUE {
+				if x.Tok == token.CONTINUE || x.Tok == token.BREAK {
 					found = true
 				}
 			case *ast.ForStmt, *ast.RangeStmt:
@@ -949,6 +983,18 @@ func (t *fnTr) assigned(list []ast.Stmt) []*lvar {
 				for _, l := range x.Lhs {
 					target(l, x.Tok == token.DEFINE)
 				}
+				if len(x.Rhs) == 1 {
+					if c, ok := x.Rhs[0].(*ast.CallExpr); ok {
+						if se, ok := c.Fun.(*ast.SelectorExpr); ok && se.Sel.Name == "Read" && len(c.Args) == 1 {
+							if rid, ok := se.X.(*ast.Ident); ok {
+								if rl, ok := t.locals[t.p.info.Uses[rid]]; ok && rl.kind == "reader" {
+									target(c.Args[0], false)
+									add(rl)
+								}
+							}
+						}
+					}
+				}
 			case *ast.IncDecStmt:
 				target(x.X, false)
 			case *ast.ExprStmt:
@@ -1018,9 +1064,33 @@ func tupleType(vs []*lvar) string {
 	return "(" + strings.Join(tys, " * ") + ")"
 }
 
+func (t *fnTr) resultOnly() string {
+	if len(t.resKind) == 2 && t.resKind[1] == "err" && strings.HasPrefix(t.resKind[0], "ptr:") {
+		return "(" + fnCoqType(t.resKind[0]) + " * (option err))" // (*T, error): the value is returned together with the error
+	}
+	if len(t.resKind) == 2 && t.resKind[1] == "err" {
+		return "(res " + fnCoqType(t.resKind[0]) + ")"
+	}
+	if len(t.resKind) == 1 {
+		return fnCoqType(t.resKind[0])
+	}
+	return "?"
+}
+
+// withState pairs a returned value with the final values of the out-parameters / the reader.
+func (t *fnTr) withState(v string) string {
+	if len(t.state) > 0 && len(t.resKind) > 0 {
+		return "(" + v + ", " + tupleVal(t.state) + ")"
+	}
+	return v
+}
+
 func (t *fnTr) resultType() string {
 	if len(t.resKind) == 0 && len(t.state) > 0 {
 		return tupleType(t.state)
+	}
+	if len(t.state) > 0 && len(t.resKind) > 0 {
+		return "(" + t.resultOnly() + " * " + tupleType(t.state) + ")"
 	}
 	if len(t.resKind) == 2 && t.resKind[1] == "err" {
 		return "(res " + fnCoqType(t.resKind[0]) + ")"
@@ -1036,7 +1106,14 @@ func (t *fnTr) resultType() string {
 //   bodies are all alternative statement lists (a missing else / default counts as an empty body).
 func (t *fnTr) branching(s ast.Stmt, rest []ast.Stmt, end func() string, bodies [][]ast.Stmt, mk func(tr func([]ast.Stmt) string) string) string {
 	// translate every body with its own scope of "escaped" structs
+	_, isSw := s.(*ast.SwitchStmt)
+	_, isTsw := s.(*ast.TypeSwitchStmt)
 	run := func(endB func() string) string {
+		savedBreak := t.breakEnd
+		if isSw || isTsw {
+			t.breakEnd = endB // `break` inside a case leaves the switch
+		}
+		defer func() { t.breakEnd = savedBreak }()
 		return mk(func(b []ast.Stmt) string {
 			saved := map[types.Object]bool{}
 			for k, v := range t.escaped {
@@ -1055,7 +1132,13 @@ func (t *fnTr) branching(s ast.Stmt, rest []ast.Stmt, end func() string, bodies 
 	// a `continue` inside a body leaves the join: translate what follows into every body that falls through instead
 	for _, b := range bodies {
 		if hasContinue(b) {
-			return run(func() string { return t.stmts(rest, end) })
+			outerBreak := t.breakEnd // what follows the statement is outside the switch: `break` there means the enclosing target
+			return run(func() string {
+				saved := t.breakEnd
+				t.breakEnd = outerBreak
+				defer func() { t.breakEnd = saved }()
+				return t.stmts(rest, end)
+			})
 		}
 	}
 	anyFalls := false
@@ -1075,6 +1158,36 @@ func (t *fnTr) branching(s ast.Stmt, rest []ast.Stmt, end func() string, bodies 
 }
 
 func (t *fnTr) retExpr(x *ast.ReturnStmt) string {
+	// return &local, err   for a (*T, error) result: value and error together
+	if len(t.resKind) == 2 && t.resKind[1] == "err" && strings.HasPrefix(t.resKind[0], "ptr:") && len(x.Results) == 2 {
+		u, ok := x.Results[0].(*ast.UnaryExpr)
+		var lv *lvar
+		if ok && u.Op == token.AND {
+			if id, ok := u.X.(*ast.Ident); ok {
+				lv = t.locals[t.p.info.Uses[id]]
+			}
+		}
+		if lv == nil || lv.kind != t.resKind[0][4:] {
+			t.unsupported(x, "pointer result other than &local")
+		}
+		var e string
+		switch r := x.Results[1].(type) {
+		case *ast.Ident:
+			if t.p.info.Types[r].IsNil() {
+				e = "None"
+			} else if el, ok := t.locals[t.p.info.Uses[r]]; ok && el.kind == "errv" {
+				e = el.name
+			}
+		case *ast.CallExpr:
+			if pkg, name, ok := t.pkgCall(r); ok && (pkg+"."+name == "fmt.Errorf" || pkg+"."+name == "errors.New") {
+				e = "(Some EOther)"
+			}
+		}
+		if e == "" {
+			t.unsupported(x, "error result of this form")
+		}
+		return "Ret " + t.withState("("+lv.name+", "+e+")")
+	}
 	if len(t.resKind) == 2 && t.resKind[1] == "err" && len(x.Results) == 1 {
 		if c, ok := x.Results[0].(*ast.CallExpr); ok {
 			mark := len(t.guards)
@@ -1142,6 +1255,9 @@ func (t *fnTr) stmts(list []ast.Stmt, end func() string) string {
 	case *ast.BranchStmt:
 		if x.Tok == token.CONTINUE && t.inLoop && x.Label == nil {
 			return t.loopEnd()
+		}
+		if x.Tok == token.BREAK && x.Label == nil && t.breakEnd != nil {
+			return t.breakEnd() // the end of the innermost switch, or the exit of the innermost for loop
 		}
 		t.unsupported(s, "branch statement "+x.Tok.String())
 	case *ast.DeclStmt:
@@ -1322,6 +1438,25 @@ func (t *fnTr) assign(x *ast.AssignStmt, next func() string) string {
 				t.unsupported(x, "re-declaration in a two-value :=")
 			}
 			return t.newLocal(obj, id.Name, kind).name
+		}
+		// n, err := rdr.Read(buf) on the io.Reader parameter with a local one-byte buffer
+		if c, isCall := x.Rhs[0].(*ast.CallExpr); isCall && define {
+			if se, ok := c.Fun.(*ast.SelectorExpr); ok && se.Sel.Name == "Read" && len(c.Args) == 1 {
+				if rid, ok := se.X.(*ast.Ident); ok {
+					if rl, ok := t.locals[t.p.info.Uses[rid]]; ok && rl.kind == "reader" {
+						bid, ok := c.Args[0].(*ast.Ident)
+						var bl *lvar
+						if ok {
+							bl = t.locals[t.p.info.Uses[bid]]
+						}
+						if bl == nil || bl.kind != "str" {
+							t.unsupported(x, "Read into something other than a local byte buffer")
+						}
+						va, vb := bind(a, "int"), bind(b, "errv")
+						return "let '(" + va + ", " + vb + ", " + bl.name + ", " + rl.name + ") := go_read " + rl.name + " " + bl.name + " in\n  " + next()
+					}
+				}
+			}
 		}
 		// v, err := f(...) with f another function of the package returning (T, error)
 		if c, isCall := x.Rhs[0].(*ast.CallExpr); isCall {
@@ -1525,8 +1660,8 @@ func (t *fnTr) switchStmt(x *ast.SwitchStmt, rest []ast.Stmt, end func() string)
 	for _, c := range x.Body.List {
 		cc := c.(*ast.CaseClause)
 		for _, st := range cc.Body {
-			if b, ok := st.(*ast.BranchStmt); ok && b.Tok != token.CONTINUE {
-				t.unsupported(st, "break / fallthrough in switch")
+			if b, ok := st.(*ast.BranchStmt); ok && b.Tok == token.FALLTHROUGH {
+				t.unsupported(st, "fallthrough in switch")
 			}
 		}
 		if cc.List == nil {
@@ -1543,7 +1678,7 @@ func (t *fnTr) switchStmt(x *ast.SwitchStmt, rest []ast.Stmt, end func() string)
 	mark := len(t.guards)
 	if x.Tag != nil {
 		tagK = t.kindOfExpr(x.Tag)
-		if tagK != "str" && tagK != "int" {
+		if tagK != "str" && tagK != "int" && tagK != "byte" {
 			t.unsupported(x, "switch on this type")
 		}
 		tag := t.expr(x.Tag)
@@ -1563,11 +1698,17 @@ func (t *fnTr) switchStmt(x *ast.SwitchStmt, rest []ast.Stmt, end func() string)
 						t.unsupported(e, "non-constant case")
 					}
 					c, _ := constTerm(tv.Value, tagK)
+					if tagK == "byte" {
+						v, _ := constant.Int64Val(tv.Value)
+						c = fmt.Sprintf("(ascii_of_nat %d)", v)
+					}
 					cs = append(cs, c)
 				}
 				eq := "str_eqb"
 				if tagK == "int" {
 					eq = "Z.eqb"
+				} else if tagK == "byte" {
+					eq = "Ascii.eqb"
 				}
 				out = "if existsb (" + eq + " " + sw + ") [" + strings.Join(cs, "; ") + "]\n    then (" + trs[i] + ")\n    else (" + out + ")"
 			}
@@ -1656,9 +1797,11 @@ func (t *fnTr) typeSwitch(x *ast.TypeSwitchStmt, rest []ast.Stmt, end func() str
 func (t *fnTr) loop(s ast.Stmt, body *ast.BlockStmt, xs string, bindVars func() string, elemTy string, rest []ast.Stmt, end func() string) string {
 	as := t.assigned(body.List)
 	pat := bindVars()
-	savedIn, savedEnd := t.inLoop, t.loopEnd
+	savedIn, savedEnd, savedBreak := t.inLoop, t.loopEnd, t.breakEnd
 	t.inLoop = true
 	t.loopEnd = func() string { return "Next " + tupleVal(as) }
+	t.breakEnd = func() string { return "Brk " + tupleVal(as) }
+	defer func() { t.breakEnd = savedBreak }()
 	saved := map[types.Object]bool{}
 	for k, v := range t.escaped {
 		saved[k] = v
@@ -1739,8 +1882,49 @@ func (t *fnTr) rangeStmt(x *ast.RangeStmt, rest []ast.Stmt, end func() string) s
 	return t.wrap(mark, out)
 }
 
+func firstStmt(b *ast.BlockStmt) ast.Stmt {
+	if b == nil || len(b.List) == 0 {
+		return nil
+	}
+	return b.List[0]
+}
+
 // for i := c; i < len(xs); i++ { body } where i is read only as xs[i]: a range over (skipn c xs).
 func (t *fnTr) forStmt(x *ast.ForStmt, rest []ast.Stmt, end func() string) string {
+	if x.Init == nil && x.Cond == nil && x.Post == nil {
+		// for { ... }: every iteration must consume one event of the io.Reader parameter (checked: the body starts with a
+		// Read on it), so 1 + the length of the schedule bounds the number of iterations
+		var rl *lvar
+		for _, sv := range t.state {
+			if sv.kind == "reader" {
+				rl = sv
+			}
+		}
+		first, _ := firstStmt(x.Body).(*ast.AssignStmt)
+		isRead := false
+		if first != nil && len(first.Rhs) == 1 {
+			if c, ok := first.Rhs[0].(*ast.CallExpr); ok {
+				if se, ok := c.Fun.(*ast.SelectorExpr); ok && se.Sel.Name == "Read" {
+					if rid, ok := se.X.(*ast.Ident); ok && rl != nil && t.locals[t.p.info.Uses[rid]] == rl {
+						isRead = true
+					}
+				}
+			}
+		}
+		if !isRead {
+			t.unsupported(x, "unbounded for loop that does not start with a Read on the io.Reader parameter")
+		}
+		as := t.assigned(x.Body.List)
+		savedIn, savedEnd, savedBreak := t.inLoop, t.loopEnd, t.breakEnd
+		t.inLoop = true
+		t.loopEnd = func() string { return "Next " + tupleVal(as) }
+		t.breakEnd = func() string { return "Brk " + tupleVal(as) }
+		b := t.stmts(x.Body.List, t.loopEnd)
+		t.inLoop, t.loopEnd, t.breakEnd = savedIn, savedEnd, savedBreak
+		st := tupleType(as)
+		return "bindc (S := " + st + ") (for_loop (S (length " + rl.name + ")) (fun (st_ : " + st + ") => let " + tuplePat(as) + " := st_ in\n    (" +
+			b + " : ctl " + st + " " + t.resultType() + ")) " + tupleVal(as) + ")\n  (fun " + tuplePat(as) + " => " + t.stmts(rest, end) + ")"
+	}
 	init, ok1 := x.Init.(*ast.AssignStmt)
 	cond, ok2 := x.Cond.(*ast.BinaryExpr)
 	post, ok3 := x.Post.(*ast.IncDecStmt)
@@ -1820,7 +2004,7 @@ func constTable(p *pkgInfo, vs *ast.ValueSpec, i int) (string, bool) {
 
 // the functions translated into Pure_gen.v ("Recv.Method" for methods)
 var pureFuncs = []string{"cast", "escapeChars", "parsePath", "getSubKeyMap", "hasSubKeys", "Map.PathForKeyShortest", "valuesForKeyPath", "hasKey", "hasKeyPath", "getLeafNodes",
-	"Map.ValuesForKey", "Map.oldValuesForPath", "Map.ValuesForPath", "Map.LeafNodes"}
+	"Map.ValuesForKey", "Map.oldValuesForPath", "Map.ValuesForPath", "Map.LeafNodes", "getJson"}
 
 func genPure(p *pkgInfo) string {
 	vars, _ := pkgVars(p)
@@ -1979,7 +2163,7 @@ func genPure(p *pkgInfo) string {
 				t.locals[obj] = lv
 				t.used[n] = 1
 				params += fmt.Sprintf(" (%s : %s)", n, fnCoqType(k))
-				if strings.HasPrefix(k, "ptr:") || (k == "bmap" && mutated[obj]) {
+				if strings.HasPrefix(k, "ptr:") || (k == "bmap" && mutated[obj]) || k == "reader" {
 					lv.isState = true
 					t.state = append(t.state, lv)
 					if !isRecv {
